@@ -219,7 +219,7 @@ answer lists), inclusion passes, and restarts on the node's durable image (clean
 4. **a header tick against a DA layer that accepts after fewer than 30 non-cancellation failures ends with
    `hdrWm = chain height`**, with outcome `done` whenever something was pending. -/
 theorem C06 (c : Cfg) (hpos : 1 ≤ c.initialHeight) (acts : List ActR) :
-    let a := runR c { n := freshNode c } acts
+    let a := runR c (freshA c) acts
     (c.initialHeight - 1 ≤ a.n.hdrWm ∧ a.n.hdrWm ≤ a.n.store.height) ∧
     (c.initialHeight - 1 ≤ a.n.dataWm ∧ a.n.dataWm ≤ a.n.store.height) ∧
     (∀ h, a.n.hdrWm < h → h ≤ a.n.store.height →
@@ -246,7 +246,7 @@ theorem C06 (c : Cfg) (hpos : 1 ≤ c.initialHeight) (acts : List ActR) :
 genesis, …), whether after a clean stop or a crash between two actions; it never raises a watermark above
 `max(old, initialHeight − 1)` and keeps the DA layer and the chain height -/
 theorem C06_restart_succeeds (c : Cfg) (hpos : 1 ≤ c.initialHeight) (acts : List ActR) (clean : Bool) :
-    let a := runR c { n := freshNode c } acts
+    let a := runR c (freshA c) acts
     ∃ a', restart c a a.n.store clean = some a' ∧ a'.n.hdrWm ≤ a.n.hdrWm ∧ a'.n.dataWm ≤ a.n.dataWm ∧
       a.n.store.height ≤ a'.n.store.height ∧ a'.daBlobs = a.daBlobs := by
   intro a
@@ -261,7 +261,7 @@ fresh start, one header iteration against an accepting DA layer brings the heade
 every initial height ≥ 1 -/
 def C06_full : Prop :=
   ∀ (c : Cfg) (rs : List (SeqResp × ExecResp)), 1 ≤ c.initialHeight →
-    (headersIter { n := run c (freshNode c) rs } []).1.n.hdrWm = (run c (freshNode c) rs).store.height
+    (headersIter { freshA c with n := run c (freshNode c) rs } []).1.n.hdrWm = (run c (freshNode c) rs).store.height
 
 theorem runA_produce (c : Cfg) (a : ANode) (rs : List (SeqResp × ExecResp)) :
     runA c a (rs.map fun r => .produce r.1 r.2) = { a with n := run c a.n rs } := by
@@ -274,7 +274,7 @@ theorem C06_full_holds : C06_full := by
   intro c rs hpos
   have h := (C06 c hpos ((rs.map fun r => Act.produce r.1 r.2).map .act)).2.2.2.2.2.2 [] [] rfl (by simp) (by decide)
   rw [runR_act, runA_produce] at h
-  have hi := (headersIter_inv { n := run c (freshNode c) rs } []).choose_spec.choose_spec.choose_spec.1.frame.height
+  have hi := (headersIter_inv { freshA c with n := run c (freshNode c) rs } []).choose_spec.choose_spec.choose_spec.1.frame.height
   exact h.1.trans hi
 
 def w3Cfg : Cfg := { chainId := "w", initialHeight := 3, genesisTime := 100, proposerAddr := [1], key := 1, signerAddr := [1] }
@@ -290,11 +290,11 @@ theorem C06_old_witness_now_submits :
     (freshNode w3Cfg).hdrWm = 2 ∧ (freshNode w3Cfg).dataWm = 2 ∧
     (freshNode w3Cfg).store.getMeta Submit.hdrWmKey = some (le64 2) ∧
     (run w3Cfg (freshNode w3Cfg) w3Run).store.height = 4 ∧
-    (let r := headersIter { n := run w3Cfg (freshNode w3Cfg) w3Run } []
+    (let r := headersIter { freshA w3Cfg with n := run w3Cfg (freshNode w3Cfg) w3Run } []
      r.1.n.hdrWm = 4 ∧ r.2.2.2 = .done ∧ r.2.2.1.map (·.heights) = [[3, 4]] ∧
      r.1.daBlobs.map (fun e => (e.2.1, e.2.2)) = [(false, 4), (false, 3)] ∧
      r.1.n.store.getMeta Submit.hdrWmKey = some (le64 4)) ∧
-    (let r := dataIter { n := run w3Cfg (freshNode w3Cfg) w3Run } []
+    (let r := dataIter { freshA w3Cfg with n := run w3Cfg (freshNode w3Cfg) w3Run } []
      r.1.n.dataWm = 4 ∧ r.2.2.2 = .done ∧ r.2.2.1.map (·.heights) = [[4]]) := by
   decide +kernel
 
@@ -314,7 +314,7 @@ def xCfg : Cfg := { chainId := "w", initialHeight := 1, genesisTime := 100, prop
 /-- three blocks: the genesis block (empty), a block with a transaction, an empty block -/
 def xRun : List (SeqResp × ExecResp) :=
   [(.batch [] 150 [], .ok), (.batch [[1]] 200 [], .ok), (.batch [] 300 [], .ok)]
-def xNode : ANode := { n := run xCfg (freshNode xCfg) xRun }
+def xNode : ANode := { freshA xCfg with n := run xCfg (freshNode xCfg) xRun }
 
 /-- the hypotheses of `C06_partial` / `C06_headers_*` hold of a reachable node with three committed blocks -/
 example : Inv xCfg (run xCfg (freshNode xCfg) xRun) ∧ xCfg.initialHeight ≤ xNode.n.hdrWm + 1 ∧ xNode.n.store.height = 3 :=
@@ -338,13 +338,13 @@ def w3Acts : List ActR :=
    .restart true, .act (.produce (.batch [[7]] 300 []) .ok), .act (.subD []), .restart false,
    .act (.produce (.batch [[2]] 400 []) .ok), .act (.subH []), .act (.subD []), .act .incl]
 
-example : (runR w3Cfg { n := freshNode w3Cfg } (w3Acts.take 3)).n.hdrWm = 3 ∧
-    (runR w3Cfg { n := freshNode w3Cfg } (w3Acts.take 4)).n.hdrWm = 3 ∧
-    (runR w3Cfg { n := freshNode w3Cfg } (w3Acts.take 7)).n.dataWm = 4 ∧
-    (runR w3Cfg { n := freshNode w3Cfg } w3Acts).n.store.height = 5 ∧
-    (runR w3Cfg { n := freshNode w3Cfg } w3Acts).n.hdrWm = 5 ∧
-    (runR w3Cfg { n := freshNode w3Cfg } w3Acts).n.dataWm = 5 ∧
-    (runR w3Cfg { n := freshNode w3Cfg } w3Acts).daBlobs.map (fun e => (e.2.1, e.2.2)) =
+example : (runR w3Cfg (freshA w3Cfg) (w3Acts.take 3)).n.hdrWm = 3 ∧
+    (runR w3Cfg (freshA w3Cfg) (w3Acts.take 4)).n.hdrWm = 3 ∧
+    (runR w3Cfg (freshA w3Cfg) (w3Acts.take 7)).n.dataWm = 4 ∧
+    (runR w3Cfg (freshA w3Cfg) w3Acts).n.store.height = 5 ∧
+    (runR w3Cfg (freshA w3Cfg) w3Acts).n.hdrWm = 5 ∧
+    (runR w3Cfg (freshA w3Cfg) w3Acts).n.dataWm = 5 ∧
+    (runR w3Cfg (freshA w3Cfg) w3Acts).daBlobs.map (fun e => (e.2.1, e.2.2)) =
       [(true, 5), (false, 5), (false, 4), (true, 4), (false, 3), (false, 3)] := by
   decide +kernel
 
